@@ -97,6 +97,8 @@ def check(gen_dir, out_dir, only=None):
             if d.get('header_box') != m['header_box']:
                 viol('header.box/%s' % tname, name, dict(ctx, got=d.get('header_box'), want=m['header_box']))
             routes = [('read', d['read'].get('ok'), d['read'].get('err')), ('iter', d.get('iter'), None)]
+            if 'iter_chunked' in d:
+                routes.append(('iter_chunked', d['iter_chunked'], None))
             if 'path_read' in d:
                 routes.append(('path_read', d['path_read'].get('ok'), d['path_read'].get('err')))
                 routes.append(('path_iter', d.get('path_iter'), None))
